@@ -107,6 +107,7 @@ class World:
         self.rpc_fail = 0
         self.engine_method_version: dict[str, int] = {}
         self.accepted_saves: list[tuple[str, int, int]] = []
+        self.engine_method_hist: dict[str, list] = {}      # engine id -> methods the engine has adopted, oldest first
         self.webpush = FakeWebPush()
         self.live_channels: dict[str, FakeChannel] = {}     # harness truth: engine -> its open, accepted websocket
         self.n_channels = 0
@@ -129,6 +130,9 @@ class World:
             self.rpc_fail -= 1
             self.res.fault("engine_rpc_error_reply")
             return M.ErrorMessage(message="engine refused", caller_error=False)
+        if isinstance(msg, AM.MethodMsg):
+            # the engine adopts the method it is sent; its own reports carry that method from now on
+            self.engine_method_hist.setdefault(engine_id, []).append(msg.method)
         return AM.SuccessMessage()
 
     def now(self) -> float:
@@ -246,6 +250,10 @@ class SimA(Simulator):
                               rng.choice([0.0, 0.0, 0.005, 0.02, 0.04, 0.08, 0.15, 0.3])])   # staggered arrival
             ops.append(["saves", "E1", group, rng.choice([0.0, 0.0, 0.02])])
             version += 1      # nominal; the oracle reads the real version
+            if rng.random() < 0.4:
+                # the engine reports its method (as it does while catching up after a reconnect); the report may have been
+                # built some saves ago and delivered only now (buffered and replayed, or overtaken)
+                ops.append(["methodreport", "E1", rng.choice([0, 0, 1, 1, 2])])
         return {"cfg": {}, "ops": ops}
 
     def _gen_users(self, rng: random.Random, tier: str) -> dict:
@@ -593,6 +601,18 @@ class SimA(Simulator):
                 pending_swap = True
             elif k == "saves":
                 await self._saves(w, op, res, step)
+            elif k == "methodreport":
+                e, lag = op[1], op[2]
+                hist = w.engine_method_hist.get(eid(e) or "", [])
+                if eid(e) is None or not hist:
+                    continue
+                m = hist[max(0, len(hist) - 1 - lag)]
+                if lag and len(hist) > 1:
+                    res.fault("stale_method_report_delivered_late")
+                lines = list(m.lines)
+                if not lines or lines[-1].content != "":
+                    lines.append(PMdl.MethodLine(id="end", content=""))
+                await send(EM.MethodMsg(engine_id=eid(e), method=PMdl.Method(lines=lines, version=m.version)))
             elif k in ("sub", "reg", "unreg", "disc", "disc_slow"):
                 await self._users(w, op, live, registered, res, step)
             elif k == "errorlog_check":
@@ -687,6 +707,17 @@ class SimA(Simulator):
         for c, b, r in results:
             if not isinstance(r, int) and b == v0 and len(group) == 1 and isinstance(r, AggregatorCallerException):
                 res.add("C31", "C31.current_version_save_rejected", "save_method", step, f"{c}: {r!r}")
+        # ... and over the whole history (the version must not come back: an engine's method report does not carry it)
+        for c, b, r in accepted:
+            w.accepted_saves.append((engine_id, b, r))
+        bases: dict[int, list[int]] = {}
+        for (e2, b, r) in w.accepted_saves:
+            if e2 == engine_id:
+                bases.setdefault(b, []).append(r)
+        for b, rs in bases.items():
+            if len(rs) > 1 and per_base.get(b, 0) <= 1 and any(r in rs for _, bb, r in accepted if bb == b):
+                res.add("C31", "C31.two_saves_accepted_on_same_version", "save_method_across_groups", step,
+                        f"{len(rs)} saves based on version {b} were accepted over the history (new versions {rs})")
         res.probe("save_groups")
         if len(group) > 1:
             res.probe("concurrent_save_groups")
